@@ -45,7 +45,7 @@ def run_family(tree, family, seed, extra=(), timeout=600):
             txt = "replay timeout"
             p = None
         texts.append("$ replay_api %s %s\n%s" % (fam, seed, txt[-6000:]))
-        if "REPLAY-FAIL" in txt or (p is not None and p.returncode not in (0, 2) and "Sanitizer" in txt):
+        if "REPLAY-FAIL" in txt or (p is not None and p.returncode not in (0, 2) and ("Sanitizer" in txt or "runtime error:" in txt)):
             found = True
             break
     return found, "\n".join(texts)
